@@ -245,6 +245,11 @@ theorem PcBack.modProc (w : WorkerSt) (q : Pid) (f : Proc → Proc) (hf : ∀ y,
   · rename_i y hy; exact PcBack.updProc (q := q) (y := y) (y' := f y) rfl hy (hf y).1 (hf y).2
   · exact PcBack.refl _
 
+theorem PcBack.release (w : WorkerSt) (cur : Pid) : PcBack w (w.release cur) := by
+  unfold WorkerSt.release; split
+  · exact PcBack.modProc w cur _ (fun y => by unfold Proc.releaseDead; split <;> exact ⟨rfl, rfl⟩)
+  · exact PcBack.refl w
+
 theorem PcBack.wakeSelecting (w : WorkerSt) (q : Pid) : PcBack w (w.wakeSelecting q) :=
   PcBack.of_procs (by unfold WorkerSt.wakeSelecting; split <;> rfl)
 
@@ -285,7 +290,7 @@ theorem PcBack.finish (w : WorkerSt) (cur : Pid) (x y : Proc) (ordQ : List Pid) 
   dsimp only
   refine (PcBack.updProc (w' := { w with procs := upd w.procs cur (some { x with result := some x.finalRes }) })
     (q := cur) (y := y) (y' := { x with result := some x.finalRes }) rfl hy e1 e2).trans ?_
-  exact PcBack.foldl _ (fun w' a => PcBack.notifyResult w' a cur _) _ _
+  exact (PcBack.foldl _ (fun w' a => PcBack.notifyResult w' a cur _) _ _).trans (PcBack.release _ cur)
 
 /-- what a command does to scripts and positions of worker `i` -/
 theorem cmd_back {s : Sys} (i : Wid) (c : Cmd) (hok : ∀ p fn, c ≠ .resume p fn) (hst : ∀ p, c ≠ .start p) :
@@ -333,7 +338,9 @@ theorem cmd_back {s : Sys} (i : Wid) (c : Cmd) (hok : ∀ p fn, c ≠ .resume p 
     cases hx : (s.wk i).procs t with
     | none => simp only [handleCmdWith, hx, setWk_wk, upd_same]; exact lift (PcBack.wakeSelecting _ t)
     | some x =>
-      simp only [handleCmdWith, hx, setWk_wk, upd_same]
+      by_cases hd : (Cfg.releaseDead && !x.deliverable) = true
+      · simp only [handleCmdWith, hx, hd, if_true, setWk_wk, upd_same]; exact lift (PcBack.wakeSelecting _ t)
+      simp only [handleCmdWith, hx, hd, Bool.false_eq_true, if_false, setWk_wk, upd_same]
       exact lift ((PcBack.updProc (q := t) (y := x) (y' := { x with mailbox := x.mailbox ++ [m] })
         (w' := { s.wk i with procs := upd (s.wk i).procs t (some { x with mailbox := x.mailbox ++ [m] }) }) rfl hx rfl rfl).trans
         (PcBack.wakeSelecting _ t))
